@@ -6,12 +6,35 @@ COQ_DEPS = []
 PROFILES = ["debug"]
 # no Open Scope N_scope here: the driver finds failing case numbers by the "%N" suffix Coq prints outside N_scope
 CORR_IMPORT = "From RlibV Require Import C12.Model C12.Corr.\nClose Scope N_scope."
-AUDIT_IMPORT = ("From Coq Require Import String Ascii NArith List Bool.\nImport ListNotations.\n"
-                "From RlibV Require Import C12.Model C12.Corr C12.Properties.\nOpen Scope N_scope.")
+AUDIT_IMPORT = ("From Coq Require Import String Ascii NArith List Bool Sorted.\nImport ListNotations.\n"
+                "From RlibV Require Import C12.Model C12.Corr C12.ProofsBase C12.ProofsHist C12.Properties.\n"
+                "Open Scope N_scope.")
 EXPLAIN = "explain"
 AXIOM_ALLOW = []
 SHARD = 800
 THEOREMS = [
+    ("c12_mem_nth", "forall (s : bitset) (i : N), mem s i = N.testbit (nth (N.to_nat (i / 64)) s 0) (i mod 64)"),
+    ("c12_set", "forall (s : bitset) (x : N), wfb s = true -> (x < cap s -> exists s', set s x = Some s' /\\ wfb s' = true /\\ length s' = length s /\\ forall i, mem s' i = if i =? x then true else mem s i) /\\ (cap s <= x -> set s x = None)"),
+    ("c12_remove", "forall (s : bitset) (x : N), wfb s = true -> (x < cap s -> exists s', remove s x = Some s' /\\ wfb s' = true /\\ length s' = length s /\\ forall i, mem s' i = if i =? x then false else mem s i) /\\ (cap s <= x -> remove s x = None)"),
+    ("c12_flip", "forall (s : bitset) (x : N), wfb s = true -> (x < cap s -> exists s', flip s x = Some s' /\\ wfb s' = true /\\ length s' = length s /\\ forall i, mem s' i = if i =? x then negb (mem s i) else mem s i) /\\ (cap s <= x -> flip s x = None)"),
+    ("c12_test", "forall (s : bitset) (x : N), test s x = if x <? cap s then Some (mem s x) else None"),
+    ("c12_clear", "forall s : bitset, wfb (clear s) = true /\\ length (clear s) = length s /\\ forall i, mem (clear s) i = false"),
+    ("c12_new", "forall n : nat, wfb (new n) = true /\\ length (new n) = n /\\ forall i, mem (new n) i = false"),
+    ("c12_from_u64", "forall (n : nat) (x : N), (1 <= n)%nat -> x < 2 ^ 64 -> exists s, from_u64 n x = Some s /\\ wfb s = true /\\ length s = n /\\ forall i, mem s i = if i <? 64 then N.testbit x i else false"),
+    ("c12_from_u64_zero_words_panics", "forall x : N, from_u64 0 x = None"),
+    ("c12_bin_ref", "forall (f : N -> N -> N) (s t : bitset), length s = length t -> bin_ref f s t = Some (bin_assign f s t)"),
+    ("c12_and", "forall s t : bitset, wfb s = true -> wfb t = true -> length s = length t -> wfb (bin_assign N.land s t) = true /\\ length (bin_assign N.land s t) = length s /\\ forall i, mem (bin_assign N.land s t) i = mem s i && mem t i"),
+    ("c12_or", "forall s t : bitset, wfb s = true -> wfb t = true -> length s = length t -> wfb (bin_assign N.lor s t) = true /\\ length (bin_assign N.lor s t) = length s /\\ forall i, mem (bin_assign N.lor s t) i = mem s i || mem t i"),
+    ("c12_xor", "forall s t : bitset, wfb s = true -> wfb t = true -> length s = length t -> wfb (bin_assign N.lxor s t) = true /\\ length (bin_assign N.lxor s t) = length s /\\ forall i, mem (bin_assign N.lxor s t) i = xorb (mem s i) (mem t i)"),
+    ("c12_not", "forall s : bitset, wfb s = true -> wfb (bnot s) = true /\\ length (bnot s) = length s /\\ forall i, i < cap s -> mem (bnot s) i = negb (mem s i)"),
+    ("c12_count", "forall s : bitset, wfb s = true -> count s = N.of_nat (length (filter (mem s) (indices s)))"),
+    ("c12_indices", "forall (s : bitset) (i : N), In i (indices s) <-> i < cap s"),
+    ("c12_iter_bits", "forall s : bitset, wfb s = true -> cap s < 2 ^ 64 -> exists l, iter_bits s = Some (cap s, l) /\\ StronglySorted N.lt l /\\ (forall i, In i l <-> i < cap s /\\ mem s i = true) /\\ next s (cap s) = Some (None, cap s)"),
+    ("c12_next", "forall (s : bitset) (idx : N), wfb s = true -> cap s < 2 ^ 64 -> idx <= cap s -> (exists m, next s idx = Some (Some m, m + 1) /\\ idx <= m /\\ m < cap s /\\ mem s m = true /\\ forall i, idx <= i -> i < m -> mem s i = false) \\/ (next s idx = Some (None, cap s) /\\ forall i, idx <= i -> i < cap s -> mem s i = false)"),
+    ("c12_eq", "forall s t : bitset, wfb s = true -> wfb t = true -> length s = length t -> (beq s t = true <-> s = t) /\\ (s = t <-> forall i, i < cap s -> mem s i = mem t i)"),
+    ("c12_display", "forall s : bitset, exists str, display s = Some str /\\ String.length str = (64 * length s)%nat /\\ forall i, i < cap s -> String.get (N.to_nat i) str = Some (if mem s i then \"1\"%char else \"0\"%char)"),
+    ("c12_history", "forall nw : nat, N.of_nat nw < 2 ^ 58 -> forall ops : list op, Forall op_ok ops -> run (word_impl nw) (init (word_impl nw)) ops = run (naive_impl nw) (init (naive_impl nw)) ops"),
+    ("c12_model_check_spec_check", "forall c : case, case_ok c -> model_check c = true -> spec_check c = true"),
 ]
 RULE = ("histories of 1-40 operations on four Bitset<N> registers, N in {1,2,3,10}: new / from_u64 (0, 1, 2^63, all ones, "
         "alternating, random) / set / remove / flip / test / clear / count / iter_bits (all items + two calls after the end) / "
